@@ -25,6 +25,7 @@ type IndEntity struct {
 	Make    func(c []int) any  // c == nil: the default constructor
 	Implied func(inst any) int // warm-up implied by the formula, for the types without IdlePeriod()
 	NoScale bool               // configuration is derived by the constructor; do not scale fields
+	ZeroAt  int                // k > 0: configuration value k-1 is a displacement, not a window, and may be 0
 }
 
 func sorted(c []int) []int {
@@ -228,7 +229,7 @@ var Indicators = []*IndEntity{
 		}
 		return a
 	}},
-	{Name: "momentum.IchimokuCloud", Sig: "hlc", NOut: 5, NCfg: 4, Make: func(c []int) any {
+	{Name: "momentum.IchimokuCloud", Sig: "hlc", NOut: 5, NCfg: 4, ZeroAt: 4, Make: func(c []int) any {
 		a := momentum.NewIchimokuCloud[F]()
 		if c != nil {
 			s := sorted(c[:3])
@@ -512,6 +513,19 @@ func scalePeriods(v reflect.Value, k int, depth int) {
 	}
 }
 
+// scalePublicOnly: the case scales only what a user of the package can set (exported period
+// fields, reached through exported fields) instead of every period field including the private
+// ones; set per case by runCase.
+var scalePublicOnly bool
+
+func scaleConfig(v reflect.Value, k int) {
+	if scalePublicOnly {
+		rescaleExported(v, k, 0)
+		return
+	}
+	scalePeriods(v, k, 0)
+}
+
 // IndInstance is a configured indicator.
 type IndInstance struct {
 	E    *IndEntity
@@ -527,7 +541,7 @@ func makeInd(e *IndEntity, cfg []int, scale int) *IndInstance {
 	}
 	inst := e.Make(c)
 	if scale > 1 && !e.NoScale && len(cfg) == 0 {
-		scalePeriods(reflect.ValueOf(inst), scale, 0)
+		scaleConfig(reflect.ValueOf(inst), scale)
 	}
 	ii := &IndInstance{E: e, Inst: inst}
 	ii.declareIdle()
